@@ -776,7 +776,9 @@ def gen_bigint_history(rng, length):
         elif r < 0.68:
             hist.append(rng.choice(tops))
         elif r < 0.74:
-            hist.append(f"d::{rng.choice(tops)}")
+            # never keep a `$` result: `$` of a list is a list of strings, and big-int * string repeats the string
+            t = rng.choice(tops)
+            hist.append(f"d::{t}" if t.startswith(",") else t)
         else:
             arg = lambda: rng.choice(BIGS + SCALAR_SRC + ["b", "c", "d", '"ab"'])
             hist.append(f"f({arg()};{arg()})" if rng.random() < 0.6 else f"g({arg()})")
@@ -1339,6 +1341,25 @@ def gen_history(rng, length, ext):
 # --------------------------------------------------------------------------- entry
 
 def run(ctx):
+    """a runaway allocation in the real code (a patched tree may do anything) must end as an `err` outcome of that
+    statement, not as an OOM kill of the check: the address space is capped while histories run"""
+    import resource
+    soft, hard = resource.getrlimit(resource.RLIMIT_AS)
+    cap = 16 * 2 ** 30
+    try:
+        resource.setrlimit(resource.RLIMIT_AS, (cap if hard == resource.RLIM_INFINITY else min(cap, hard), hard))
+    except (ValueError, OSError):
+        pass
+    try:
+        _run(ctx)
+    finally:
+        try:
+            resource.setrlimit(resource.RLIMIT_AS, (soft, hard))
+        except (ValueError, OSError):
+            pass
+
+
+def _run(ctx):
     quick = ctx.tier == "quick"
     drv = Driver("c04") if getattr(ctx, "driver_ok", True) else None
     ctx.rule = ("seeded statement histories over the closed grammar (literal/copy/verb assignments, amend and "
